@@ -6,6 +6,6 @@ set -u
 export CARGO_NET_OFFLINE=true
 cd "$(dirname "$0")"
 mkdir -p target work evidence
-(cd harness && CARGO_TARGET_DIR=../target/h cargo build --offline --release && CARGO_TARGET_DIR=../target/h cargo build --offline) || exit 1
+(cd harness && CARGO_TARGET_DIR=../target/h cargo build --offline --release && CARGO_TARGET_DIR=../target/h cargo build --offline && CARGO_TARGET_DIR=../target/hd cargo build --offline --features konst_debug) || exit 1
 (cd harness && CARGO_TARGET_DIR=../target/miri cargo +nightly miri setup && MIRIFLAGS=-Zmiri-disable-isolation CARGO_TARGET_DIR=../target/miri cargo +nightly miri run --offline -q -- c01 --tier miri --out ../work/setup-miri.json) || echo "setup: Miri warm-up failed (checks that need Miri will report INCONCLUSIVE)"
 exit 0
